@@ -111,8 +111,14 @@ def produce(case, ctx, model, route, rng):
       kw["cutoff"] = round(span * rng.choice([0.37, 0.5, 0.81]), 6)
     elif c_ < 0.35:
       kw["cutoff"] = round(span * 1.5, 6)
-    if rng.random() < 0.3:
+    c2_ = rng.random()
+    if c2_ < 0.3:
       kw["comments"] = ["first comment", "second", "third line"]
+    elif c2_ < 0.5:
+      # comment lines as readlines() hands them over (each ends in a line break), or one holding a line break inside:
+      # the file still has exactly three comment lines before the element line
+      kw["comments"] = rng.choice([["first comment\n", "second\n", "third line\n"], ["two\nlines", "second"], ["a\r\n", "b\r\n", "c\r\n"], ["only one\n"]])
+      ctx.cls("legacy_keyword:comments_with_line_breaks")
     for k_ in kw:
       ctx.cls("legacy_keyword:" + k_)
     fn(nrho, float(t["cutoff_rho"]) / (nrho - 1), nr, float(t["cutoff"]) / (nr - 1), eams, pots, out, **kw)
